@@ -2,7 +2,7 @@
    occurrence specification of Link/TraverseSpec.v over the model Model/Traverse.v.
    Only statements, `exact`, and Print Assumptions live here. *)
 From Coq Require Import List String ZArith Bool.
-From NGO Require Import Syntax.Ast Model.Traverse Link.TraverseSpec.
+From NGO Require Import Syntax.Ast Model.Traverse Link.TraverseSpec Link.InputExact.
 Import ListNotations.
 Open Scope string_scope. Open Scope list_scope.
 
@@ -69,3 +69,25 @@ Example C18_input_lower_nonvacuous :
   auto_detect_output nv_prog = [("a", 1)].
 Proof. exact input_lower_nonvacuous_proof. Qed.
 Print Assumptions C18_input_lower_nonvacuous.
+
+(* nothing is invented: every reported input predicate occurs in a rule or objective *)
+Theorem C18_input_upper : forall P p,
+  In p (auto_detect_input P) -> exists s, In s P /\ occurs p s.
+Proof. exact input_upper_proof. Qed.
+Print Assumptions C18_input_upper.
+
+(* exact characterisation: p is reported iff it occurs and either is never a positive head atom or
+   the statements deriving it are exactly the statements using it in their body *)
+Theorem C18_input_exact : forall P p, Forall wf_heads P ->
+  (In p (auto_detect_input P) <->
+   (exists s, In s P /\ occurs p s) /\
+   ((forall s, In s P -> ~ pos_head_atom p s) \/ self_defined P p)).
+Proof. exact input_exact_proof. Qed.
+Print Assumptions C18_input_exact.
+
+(* non-vacuity of the self-defined case: `p(X) :- p(X). r(X) :- q(X).` *)
+Example C18_input_exact_nonvacuous :
+  auto_detect_input sd_prog = [("q", 1); ("p", 1)] /\ self_defined sd_prog ("p", 1) /\
+  ~ (forall s, In s sd_prog -> ~ pos_head_atom ("p", 1) s).
+Proof. exact input_exact_nonvacuous_proof. Qed.
+Print Assumptions C18_input_exact_nonvacuous.
